@@ -335,3 +335,8 @@ impl<D: DataRef> WriterTo for ScalarZnx<D> {
         Ok(())
     }
 }
+
+#[cfg(kani)]
+mod verif_kani {
+    include!(concat!(env!("POULPY_VERIF_KX"), "/hal/scalar_znx.rs"));
+}
